@@ -121,6 +121,10 @@ def run(ctx):
         subsets = [set(c) for r in range(5) for c in itertools.combinations(OPTIONAL, r)]
         if quick:
             combos = [(e, rng.choice(subsets)) for e in encs] + [(rng.choice(encs), s) for s in rng.sample(subsets, 6)]
+            # every run: a mesh that supplies its face-edge table and nothing else about edges (the numbering of the edges is then
+            # the one that table uses), padded with NaN and with a fill attribute
+            # (given as frozensets: these two also name an edge dimension that nothing in the file is stored on)
+            combos += [((0, 'nan', False), frozenset({'face_edge'})), ((1, 'attr', False), frozenset({'face_edge'}))]
         else:
             combos = [(e, rng.choice(subsets)) for e in encs] + [(rng.choice(encs), s) for s in subsets]
         ref_fn = None
@@ -128,7 +132,8 @@ def run(ctx):
             # one-based meshes: sometimes the optional tables are zero-based and carry no start_index attribute of their own
             bare = tuple(sorted(sup)) if (si == 1 and sup and rng.random() < 0.35) else ()
             d = gen.ugrid(rng, mesh=(nodes, faces), start_index=si, fill=fill, transposed=tr, supplied=sup, invalid=False,
-                          bare_zero_based=bare, extra_width=rng.choice([0, 0, 0, 2]))
+                          bare_zero_based=bare, extra_width=rng.choice([0, 0, 0, 2]),
+                          **({'phantom_edge_dim': True, 'edge_dim_declared': True} if isinstance(sup, frozenset) else {}))
             ctx.count(f'optional tables zero-based without start_index:{bool(bare)}')
             # a dataset with exactly two time records whose data come before the mesh variables: another dimension of length 2
             # precedes 'Two'
